@@ -23,7 +23,7 @@ PROPS["C19"] = dict(
     stages=[
         dict(name="differential", run="^TestBufferDifferential$", quick=60000, thorough=4000000, shards=16,
              timeout_quick=600, timeout_thorough=3000),
-        dict(name="inside-marshallers", run="^TestInsideMarshallers$", quick=30000, thorough=2000000, shards=16, timeout_thorough=3000),
+        dict(name="inside-marshallers", run="^TestInsideMarshallers$", quick=30000, thorough=1000000, shards=16, timeout_thorough=3400),
         dict(name="fuzz", fuzz="FuzzBufferDifferential", fuzztime=120),
     ],
 )
@@ -260,7 +260,7 @@ PROPS["C09"] = dict(
             dict(name="registration", run="^TestRegistrationHistory$", quick=2000, thorough=400000, shards=8, timeout_thorough=3000),
             dict(name="crossprocess", run="^TestCrossProcess$", quick=1, thorough=1, timeout_thorough=3000),
             dict(name="timelapse", run="^TestTimeLapse$", quick=1, thorough=1),
-            dict(name="growth", run="^TestGrowthBoundaries$", quick=24, thorough=4000, shards=16, timeout_thorough=3000)],
+            dict(name="growth", run="^TestGrowthBoundaries$", quick=24, thorough=2400, shards=16, timeout_thorough=3400)],
 )
 
 PROPS["C11"] = dict(
